@@ -1881,7 +1881,107 @@ fn gen_large(g: &mut Gen) {
     }
 }
 
+
+/// "Adversarial names": the fallible conversions and wrappers between tensors and matrices, and
+/// the name-driven constructors, with the library's own interop names, prefixes of one another
+/// and the empty name in unconventional positions, on non-square sizes.
+fn gen_adversarial_names(g: &mut Gen) {
+    let mut pairs: Vec<(String, String)> = [
+        ("column", "row"), ("row", "column"), ("x", "row"), ("column", "y"), ("rows", "columns"),
+        (EMPTY_NAME, "row"), ("column", EMPTY_NAME), ("row", "row"), (EMPTY_NAME, EMPTY_NAME), ("r", "c"),
+        ("c", "r"), ("row", "rows"), ("samples", "features"),
+    ]
+    .iter()
+    .map(|(a, b)| (a.to_string(), b.to_string()))
+    .collect();
+    for _ in 0..6 {
+        let n = adversarial_names(&mut g.rng, 2);
+        pairs.push((n[0].to_string(), n[1].to_string()));
+    }
+    let sizes = [(2usize, 3usize), (3, 2), (1, 4), (4, 1), (3, 5)];
+    for (k, (n1, n2)) in pairs.iter().enumerate() {
+        let (r, c) = sizes[k % sizes.len()];
+        let distinct = n1 != n2;
+        // Matrix::into_tensor / TryFrom, then the tensor seen as a matrix again
+        for via in ["into_tensor", "try_from", "try_into"] {
+            g.op(format!("@ into_tensor {} {} {} {} via={}", r, c, n1, n2, via));
+            g.count("names.into_tensor");
+            if distinct {
+                gen_gets(g, &[r, c], true, "names.into_tensor");
+                g.op("mtensor".to_string());
+                gen_mgets(g, r, c, "names.matrix_ref_tensor");
+            }
+        }
+        // TensorRefMatrix::with_names over a matrix and over a clipped / reversed view
+        g.op(format!("@ matrix {} {}", r, c));
+        g.op(format!("tmatrix {} {} via=with_names", n1, n2));
+        g.count("names.with_names");
+        if distinct {
+            gen_gets(g, &[r, c], true, "names.tensor_ref_matrix");
+            g.op("mtensor".to_string());
+            gen_mgets(g, r, c, "names.matrix_ref_tensor");
+            g.op(format!("tmatrix {} {} via=with_names", n2, n1));
+            gen_gets(g, &[r, c], false, "names.tensor_ref_matrix2");
+        } else {
+            gen_mgets(g, r, c, "names.after_refusal");
+        }
+        g.op(format!("@ matrix {} {}", r + 1, c + 1));
+        g.op(format!("mrange 1:{} 0:{}", MAX, c));
+        g.op("mreverse 1 0".to_string());
+        g.op(format!("tmatrix {} {} via=with_names", n1, n2));
+        if distinct {
+            gen_gets(g, &[r, c], false, "names.tensor_ref_matrix_of_view");
+            g.op("mtensor".to_string());
+            gen_mgets(g, r, c, "names.matrix_ref_tensor_of_view");
+        }
+        if !distinct {
+            continue;
+        }
+        // a tensor with these names as a matrix, directly and after access / transposition
+        g.op(format!("@ tensor {}:{},{}:{}", n1, r, n2, c));
+        g.op("mtensor".to_string());
+        g.count("names.matrix_ref_tensor_of_tensor");
+        gen_mgets(g, r, c, "names.matrix_ref_tensor_of_tensor");
+        g.op(format!("@ tensor {}:{},{}:{}", n1, r, n2, c));
+        g.op(format!("access {},{}", n2, n1));
+        gen_gets(g, &[c, r], true, "names.access");
+        g.op("mtensor".to_string());
+        gen_mgets(g, c, r, "names.matrix_ref_tensor_of_access");
+        g.op(format!("@ tensor {}:{},{}:{}", n1, r, n2, c));
+        g.op(format!("transpose {},{}", n2, n1));
+        gen_gets(g, &[c, r], true, "names.transpose");
+        g.op("mtensor".to_string());
+        gen_mgets(g, c, r, "names.matrix_ref_tensor_of_transpose");
+        // the name-driven range / mask constructors
+        for kind in ["range", "mask"] {
+            for mode in ["from", "from_strict"] {
+                g.op(format!("@ tensor {}:{},{}:{}", n1, r + 1, n2, c + 1));
+                g.op(format!("{} {} {}:1:1 via=tuple", kind, mode, n2));
+                g.count("names.named_range");
+                let vl = if kind == "range" { vec![r + 1, 1] } else { vec![r + 1, c] };
+                gen_gets(g, &vl, false, "names.named_range");
+                g.op(format!("@ tensor {}:{},{}:{}", n1, r + 1, n2, c + 1));
+                g.op(format!("{} {} {}:0:1,{}:0:1", kind, mode, n1, n1));
+                g.op(format!("{} {} {}x:0:1", kind, mode, n1));
+            }
+        }
+        g.op(format!("@ tensor {}:{},{}:{}", n1, r, n2, c));
+        g.op(format!("reverse {}", n2));
+        gen_gets(g, &[r, c], true, "names.reverse");
+        g.op(format!("index {}:0", n1));
+        gen_gets(g, &[c], true, "names.index");
+        g.op(format!("@ try_from {}:{},{}:{} {}", n1, r, n2, c, r * c));
+        g.op(format!("@ is_valid {}:{},{}:{}", n1, r, n2, c));
+        g.op(format!("@ record tensor {}:{},{}:{} {}", n1, r, n2, c, vec!["0"; r * c].join(",")));
+    }
+    // the same name twice / the empty name in three dimensions
+    g.op(format!("@ try_from row:2,column:3,row:2 12"));
+    g.op(format!("@ try_from {}:2,column:3,row:2 12", EMPTY_NAME));
+    g.op(format!("@ is_valid {}:2,{}:3", EMPTY_NAME, EMPTY_NAME));
+}
+
 pub fn gen(g: &mut Gen) {
+    gen_adversarial_names(g);
     gen_large(g);
     gen_try_from(g);
     gen_access(g);
